@@ -135,6 +135,14 @@ def main():
         c17_gen.regenerate()
     except c17_gen.Untranslatable as e:
         run.proof_broken.append(f"translator:CtxTable:{e}")
+    import c02_gen
+    try:
+        c02_gen.regenerate()
+        for k in c02_gen.changed_since_pin():
+            if k.split(":")[0] in ("tensordict/_contextlib.py",) or "__exit__" in k or "__enter__" in k or "_as_context_manager" in k:
+                run.notes.append(f"transcribed source changed since it was pinned: {k} (re-read Model/C17Ctx.lean against it, then c02_gen.py --repin)")
+    except c02_gen.Untranslatable as e:
+        run.proof_broken.append(f"translator:C02Src:{e}")
     run.build_and_audit(["TdVerif.Props.C17"])
     drv = run.driver()
     rng = run.rng
@@ -356,6 +364,10 @@ def main():
             run.oracle_fail("ctx_temp", case, f"block on a temporary original raised {type(e).__name__}: {str(e)[:140]}", f"temp:{op1[0]}:raises:{L.err_class(e)}")
             continue
         run.count("temp.original_alive", alive)
+        # model: `withTempBlock` (metadata of the yielded object after the block)
+        m = parse_sx(drv.ask(f"(c17.temp {op1[0]} {L.enc_call(*sp1)} {L.enc_edits(edits)} {L.enc_state(st)})"))
+        model = ["err", m[1]] if m[0] == "err" else ["ok", L.dec_state(m[1])]
+        run.corr("temp:" + op1[0], case, ["ok", L.meta(y)], model)
         bad = L.same_td(y, want)
         if bad:
             run.oracle_fail("ctx_temp", case, f"the yielded object changed at exit: {bad}", f"temp:{op1[0]}:changed")
